@@ -125,24 +125,15 @@ def dict_literal_keys(d: ast.Dict) -> set[str] | None:
     return keys
 
 
-def written_keys(repo: Repo, c: Class, f: Func, _depth=0) -> tuple[set[str], bool]:
-    """keys written into the dict returned by f (to_dict-like).  Returns (keys, complete)."""
+def written_keys(repo: Repo, c: Class, f: Func, _depth=0, var=None) -> tuple[set[str], bool]:
+    """keys written into the dict returned by f (to_dict-like), or, with var given, into the dict
+    parameter `var` of helper f.  Returns (keys, complete)."""
     keys = set()
     complete = True
-    dict_vars = set()
-    for n in walk_no_nested(f.node):
-        if isinstance(n, ast.Assign) and isinstance(n.value, ast.Dict) and isinstance(n.targets[0], ast.Name):
-            k = dict_literal_keys(n.value)
-            if k is None:
-                complete = False
-            else:
-                keys |= k
-                dict_vars.add(n.targets[0].id)
-        if isinstance(n, ast.Assign) and isinstance(n.targets[0], ast.Subscript) \
-                and isinstance(n.targets[0].value, ast.Name) and isinstance(n.targets[0].slice, ast.Constant):
-            keys.add(n.targets[0].slice.value)
-            dict_vars.add(n.targets[0].value.id)
-        if isinstance(n, ast.Return) and n.value is not None:
+    nodes = list(walk_no_nested(f.node))
+    ret_vars = {var} if var else set()
+    for n in nodes:
+        if isinstance(n, ast.Return) and n.value is not None and var is None:
             v = n.value
             if isinstance(v, ast.Dict):
                 k = dict_literal_keys(v)
@@ -150,8 +141,9 @@ def written_keys(repo: Repo, c: Class, f: Func, _depth=0) -> tuple[set[str], boo
                     complete = False
                 else:
                     keys |= k
+            elif isinstance(v, ast.Name):
+                ret_vars.add(v.id)
             elif isinstance(v, ast.Call) and _depth < 3:
-                # delegation: return self._to_dict(...) / super().to_dict()
                 r = repo.resolve_call(f, v)
                 if r and r[0] == 'func':
                     k2, c2 = written_keys(repo, c, r[1], _depth + 1)
@@ -159,24 +151,58 @@ def written_keys(repo: Repo, c: Class, f: Func, _depth=0) -> tuple[set[str], boo
                     complete &= c2
                 else:
                     complete = False
-            elif isinstance(v, ast.Name):
-                pass
             else:
                 complete = False
-        # helper extending the dict: self._add_to_dict(d) / super()._add_to_dict(d)
-        if isinstance(n, ast.Call) and _depth < 3 and any(isinstance(a, ast.Name) and a.id in dict_vars
-                                                           for a in n.args):
-            r = repo.resolve_call(f, n)
-            if r and r[0] == 'func' and r[1].fq != f.fq:
-                k2, _ = written_keys(repo, c, r[1], _depth + 1)
-                keys |= k2
+    for n in nodes:
+        if isinstance(n, ast.Assign) and isinstance(n.targets[0], ast.Name) and n.targets[0].id in ret_vars:
+            if isinstance(n.value, ast.Dict):
+                k = dict_literal_keys(n.value)
+                if k is None:
+                    complete = False
+                else:
+                    keys |= k
+            elif isinstance(n.value, ast.Call) and unparse(n.value.func) == 'dict' and not n.value.args:
+                keys |= {kw.arg for kw in n.value.keywords if kw.arg}
+            elif not (isinstance(n.value, ast.Call) and unparse(n.value.func) == 'dict'):
+                complete = False
+        if isinstance(n, ast.Assign) and isinstance(n.targets[0], ast.Subscript) \
+                and isinstance(n.targets[0].value, ast.Name) and n.targets[0].value.id in ret_vars:
+            if isinstance(n.targets[0].slice, ast.Constant):
+                keys.add(n.targets[0].slice.value)
+            else:
+                complete = False
+        if isinstance(n, ast.Call) and _depth < 3:
+            pos = [i for i, a in enumerate(n.args) if isinstance(a, ast.Name) and a.id in ret_vars]
+            if pos and not (isinstance(n.func, ast.Name) and n.func.id in ('dict', 'len', 'tuple', 'list')):
+                r = repo.resolve_call(f, n)
+                if r and r[0] == 'func' and r[1].fq != f.fq:
+                    callee = r[1]
+                    cps = callee.params
+                    off = 1 if cps and cps[0] in ('self', 'cls') and not callee.is_static() and \
+                        isinstance(n.func, ast.Attribute) else 0
+                    if pos[0] + off < len(cps):
+                        k2, _ = written_keys(repo, c, callee, _depth + 1, var=cps[pos[0] + off])
+                        keys |= k2
         if isinstance(n, ast.Call) and isinstance(n.func, ast.Attribute) and n.func.attr == 'update' \
-                and isinstance(n.func.value, ast.Name) and n.func.value.id in dict_vars:
+                and isinstance(n.func.value, ast.Name) and n.func.value.id in ret_vars:
             for a in n.args:
                 if isinstance(a, ast.Dict):
                     keys |= dict_literal_keys(a) or set()
-    # subscript stores on a parameter dict (helper form `def _add_to_dict(self, d): d['x'] = ...`)
     return keys, complete
+
+
+def inner_records(f: Func) -> list[tuple[str, set[str]]]:
+    """dict literals bound to a local that is not returned itself (e.g. per-column records appended
+    to a list): [(local name, keys)]"""
+    rets = {n.value.id for n in walk_no_nested(f.node) if isinstance(n, ast.Return) and isinstance(n.value, ast.Name)}
+    out = []
+    for n in walk_no_nested(f.node):
+        if isinstance(n, ast.Assign) and isinstance(n.value, ast.Dict) and isinstance(n.targets[0], ast.Name) \
+                and n.targets[0].id not in rets:
+            k = dict_literal_keys(n.value)
+            if k:
+                out.append((n.targets[0].id, k))
+    return out
 
 
 def read_keys(f: Func, dict_param: str | None = None) -> tuple[set[str], set[str], bool]:
